@@ -125,6 +125,24 @@ def grid_cases(r, quick):
                     d_, u_, cl_, ln_ = kw["chunks"][k_]
                     kw["chunks"][k_] = (bytes(len(d_)), u_, cl_, cl_ + grow)
                     out.append(("grid:stored-as-is:comp%d:flags%d:+%d" % (comp, flags, grow), zckref.build(**kw)))
+        # ... and the well-formed variety of it: the stored bytes ARE the content and match the uncompressed checksum; only the declared size differs
+        for flags in (4, 6):
+            for grow in (0, 1, 4080, 1 << 20, 1 << 28):
+                cht_ = r.choice([1, 2])
+                pcs_ = [r.randbytes(r.randrange(8, 60)) for _ in range(3)]
+                st_ = [b""] + [zckref.zstd_compress(x) for x in pcs_]
+                ch_ = [(bytes(DIGEST_SIZE[cht_]), bytes(DIGEST_SIZE[cht_]), 0, 0)] + [(zckref.H(cht_, s_), zckref.H(cht_, x), len(s_), len(x)) for s_, x in zip(st_[1:], pcs_)]
+                k_ = r.randrange(1, 4)
+                st_[k_] = pcs_[k_ - 1]
+                ch_[k_] = (bytes(DIGEST_SIZE[cht_]), zckref.H(cht_, pcs_[k_ - 1]), len(pcs_[k_ - 1]), len(pcs_[k_ - 1]) + grow)
+                ht_ = r.randrange(4)
+                kw = dict(hash_type=ht_, flags=flags, comp_type=2, chunk_hash_type=cht_, chunks=ch_, body=b"".join(st_), data_digest=bytes(DIGEST_SIZE[ht_]))
+                if flags & 2:
+                    kw["opt_elems"] = []
+                try:
+                    out.append(("grid:stored-chunk-matching-uncompressed-checksum:flags%d:+%d" % (flags, grow), zckref.build(**kw)))
+                except Exception:
+                    pass
         # hash types 0..5 in both places, flag 4 with short index
         for t in range(6):
             kw = base_kw(r, 2, 0, 0)
